@@ -16,6 +16,10 @@ type Harness struct {
 	DeadlockOK bool
 	// LivelockOK: exhausting the fair step budget is only an anomaly.
 	LivelockOK bool
+	// Post, if set, is the post-run oracle: it receives what the run handed to simrt.SetData and
+	// runs outside the simulation (real time, real goroutines: linearizability checking lives
+	// here). It returns a check id ("" = held), a message, and whether the result was inconclusive.
+	Post func(data any) (check, msg string, inconclusive bool)
 	// Weight is the relative share of runs among the property's harnesses (default 1).
 	Weight int
 }
